@@ -49,6 +49,9 @@ fn fs_config(cfg: &Value) -> FsConfig {
     if let Some(cap) = cfg.get("capacity").and_then(|c| c.as_u64()) {
         c.capacity(cap);
     }
+    // O_DIRECT descriptors ("d" in the open mode) are used with alignment 1, so every
+    // buffer / offset / length is aligned and only the page-cache bypass is left.
+    c.direct_io_alignment(cfg.get("dio_align").and_then(|c| c.as_u64()).unwrap_or(1));
     if let Some(pc) = cfg.get("cache").filter(|v| !v.is_null()) {
         c.page_cache()
             .page_size(pc["page_size"].as_u64().unwrap())
@@ -123,7 +126,9 @@ impl Interp {
 
     /// mode: "rw" (default) | "r" | "w"
     fn open_mode(f: u64, mode: &str) -> std::io::Result<File> {
-        OpenOptions::new().read(mode != "w").write(mode != "r").open(file_path(f))
+        let direct = mode.ends_with('d');
+        let m = mode.trim_end_matches('d');
+        OpenOptions::new().read(m != "w").write(m != "r").direct_io(direct).open(file_path(f))
     }
 
     fn fd_of(&self, k: usize) -> i32 {
